@@ -342,6 +342,20 @@ func TestScenes(t *testing.T) {
 			close(stop)
 			wg.Wait()
 			rec.Add("scene:rendered-while-other-renders-run", 1)
+		} else if rapid.IntRange(0, 2).Draw(t, "renderer-object-used-before") == 0 {
+			// one renderer object for two models: it has rendered another solid (a ball somewhere in the same
+			// box, or an unrelated one elsewhere) before it renders the scene
+			ro := r.mk(cells)
+			dr := nb.Size().MinComponent() * g.F(0.1, 0.45).Draw(t, "earlier-radius")
+			sp, _ := sdf.Sphere3D(dr)
+			if rapid.Bool().Draw(t, "earlier-in-the-same-box") {
+				off := nb.Size().MulScalar(0.2 * g.F(-1, 1).Draw(t, "earlier-offset"))
+				render.ToTriangles(lat.Rebox3{S: sdf.Transform3D(sp, sdf.Translate3d(nb.Center().Add(off))), BB: nb}, ro)
+			} else {
+				render.ToTriangles(sdf.Transform3D(sp, sdf.Translate3d(v3.Vec{X: 40, Y: -7, Z: 3})), ro)
+			}
+			ts = render.ToTriangles(rb, ro)
+			rec.Add("scene:renderer-object-used-before", 1)
 		} else {
 			ts = render.ToTriangles(rb, r.mk(cells))
 		}
@@ -702,8 +716,15 @@ func TestBodiesIntoOneWriter(t *testing.T) {
 			}
 			wg.Wait()
 		} else {
+			// one after the other, through one renderer object or a fresh one per body
+			one := r.mk(cells)
+			sameObject := rapid.Bool().Draw(t, "one-renderer-object")
 			for _, b := range bodies {
-				r.mk(cells).Render(b, w)
+				if sameObject {
+					one.Render(b, w)
+				} else {
+					r.mk(cells).Render(b, w)
+				}
 			}
 		}
 		w.Close()
